@@ -548,3 +548,29 @@ def mutate_handlers(ctx: Ctx) -> None:
     # nothing between function entry and the yield writes
     pre = [w for w in m.writes if not cfg.dominates(m.ynode, w["node"])]
     ctx.expect("R-ORDER", f, "nothing is written before the caller's block has completed", not pre, "", f"{len(pre)} write(s) not dominated by the yield", node=f.node)
+
+
+def serialization_fails_loudly(ctx: Ctx) -> None:
+    """C06: the up-front 'str(simfile)' in mutate() protects the files only if a failing serialize() raises out of str():
+    no handler around it swallows, no finally block returns / breaks (which discards the exception in flight)."""
+    p = ctx.p
+    f = p.func("simfile._private.serializable:Serializable.__str__")
+    tries = [t for t in body_walk(f.node) if isinstance(t, ast.Try)]
+    n = 0
+    for t in tries:
+        for st in t.finalbody:
+            for x in walk_no_nested(st):
+                if isinstance(x, (ast.Return, ast.Break, ast.Continue)):
+                    n += 1
+                    ctx.bad("R-EXC", f, f"{type(x).__name__.lower()} inside a finally block of __str__", "leaving a finally block with return / break / continue discards the exception in flight: a serialize() that fails "
+                            "part-way would make str(simfile) return the partial text, and mutate() would write it over the input file", node=x)
+        for h in t.handlers:
+            raises = [x for st in h.body for x in walk_no_nested(st) if isinstance(x, ast.Raise)]
+            if not raises:
+                n += 1
+                ctx.bad("R-EXC", f, f"handler '{src(h.type) if h.type is not None else 'bare except'}' in __str__ swallows the failure", "a serialization failure would return text instead of raising", node=h)
+    if not n:
+        ctx.ok("R-EXC", f, "a failing serialize() propagates out of str()", f"{len(tries)} try statement(s), none swallowing", node=f.node)
+    cfg = ctx.cfg(f)
+    sc = [c for c in calls(f) if isinstance(c.func, ast.Attribute) and c.func.attr == "serialize"]
+    ctx.floor("serialize() calls in Serializable.__str__", len(sc), 1)
